@@ -17,6 +17,8 @@ from .model import LIB_DIRS, AnalysisError
 
 # frozen minimum detection ratio of the AST-computed mutants per property (measured on the pinned tree minus a margin)
 AUTO_FLOOR = {}
+# properties about aliasing are probed with the value-semantics operators only (sign / index mutants cannot create an alias)
+AUTO_OPS = {'C12': {'uncopy', 'aliasparam'}, 'C13': {'uncopy', 'aliasparam', 'delete', 'swap'}}
 
 
 class Case:
@@ -177,6 +179,8 @@ def auto_mutants(prop, root, seed=0, cap=400, jobs=16):
         with open(path) as fh:
             sources[rel] = fh.read()
         for item in mutate.plan(sources[rel], names):
+            if prop in AUTO_OPS and item[1] not in AUTO_OPS[prop]:
+                continue
             plans.append((rel, item))
     total = len(plans)
     import random
